@@ -33,7 +33,7 @@ def body(ck, tier, runner):
     probes(ck, runner)
     rng = Rng(ck.seed * 3001 + 3)
     sd = SemDiff(ck, runner, "config_grid")
-    ndb = 40 if tier == "quick" else 1500
+    ndb = 70 if tier == "quick" else 1500
     for d in range(ndb):
         maxr = rng.pick([4, 8, 16, 32])
         db = qgen.gen_db(rng, ntables=3, max_rows=maxr, big=(d % 10 == 9))
@@ -43,7 +43,7 @@ def body(ck, tier, runner):
         if d < 2:
             ck.sample({"query": qgen.sexp(queries[0])[:400]})
     # DML row counts: INSERT ... SELECT / CTAS under different settings
-    for d in range(10 if tier == "quick" else 200):
+    for d in range(15 if tier == "quick" else 200):
         db = qgen.gen_db(rng, ntables=2, max_rows=rng.pick([5, 40]), big=(d % 5 == 4))
         g = qgen.Gen(rng, db, {"join", "agg", "union", "distinct"})
         q, ty = g.query(rng.pick([1, 2]))
